@@ -138,15 +138,7 @@ Definition item_wf (a : assign) (dflts : usertags) (it : item) : bool :=
       && String.eqb (for_header_subst a dflts (render_hdr h)) s
       && hasSpecificTag s TAG_FOR_BEGIN && negb (hasSpecificTag s TAG_FOR_END) && hasDefault s
       && String.eqb (snd (extractDefaultAndTag s EQ)) v
-      && match for_items v with
-         | Some (i :: r) =>
-             (* the FOR loop itself, checked on this instance (C17_for is proved separately, see Props/C17.v) *)
-             match innerexpand_for_loop (map (ref_line a) body) (Some v) with
-             | Some out => list_eqb out (ref_for (i :: r) (map (subst a) body))
-             | None => false
-             end
-         | _ => false
-         end
+      && match for_items v with Some (_ :: _) => true | _ => false end     (* a list with a comma, or a count >= 1 *)
       && forallb (body_line_wf a) body
   end.
 
